@@ -251,7 +251,8 @@ ObsDiff == {f \in DOMAIN ev'.obs : ev'.obs[f] # ev'.ideal[f]}
 ObsDescr == [at |-> Where, fields |-> [f \in ObsDiff |-> <<ev'.obs[f], ev'.ideal[f]>>], fault |-> hist.lastFault,
              restarts |-> hist.restarts, firstField |-> (IF ObsDiff = {} THEN "" ELSE CHOOSE f \in ObsDiff : TRUE)]
 C09_Same ==
-   Clause("C09", "SameAsNeverStopped", HasObs /\ (hist.restarts > 0 \/ IsKind("Restart")) /\ ~hist.crashed /\ ~hist.synced,
+   Clause("C09", "SameAsNeverStopped", HasObs /\ (hist.restarts > 0 \/ IsKind("Restart")) /\ ~hist.crashed /\ ~hist.synced
+                                        /\ ~("imported" \in DOMAIN hist /\ hist.imported),
           ObsDiff = {}, ObsDescr)
 C09_Boots ==
    Clause("C09", "RestartSucceeds", ev'.kind \in {"Restart", "Recover"}, ev'.panic = "",
